@@ -217,6 +217,18 @@ func replay(path string) int {
 	return f(path)
 }
 
+func readCaseRef(path string) (caseRef, error) {
+	b, err := os.ReadFile(path)
+	if err != nil {
+		return caseRef{}, err
+	}
+	var doc struct {
+		Replay caseRef `json:"replay"`
+	}
+	err = json.Unmarshal(b, &doc)
+	return doc.Replay, err
+}
+
 func replayMux(p *muxProp, path string) int {
 	b, _ := os.ReadFile(path)
 	var doc struct {
